@@ -22,6 +22,20 @@ import objtypes                     # real module
 _col = gen._col
 
 
+def _strict(v):
+  """Canonical, hashable, NaN-stable and TYPE-STRICT form of an encoded cell value
+  (1, 1.0 and True are three different values)."""
+  if isinstance(v, bool): return ("b", v)
+  if isinstance(v, float):
+    if v != v: return ("nan",)
+    return ("f", repr(v))
+  if isinstance(v, int): return ("i", v)
+  if isinstance(v, (list, tuple)): return ("l",) + tuple(_strict(x) for x in v)
+  if isinstance(v, dict): return ("d",) + tuple(sorted((str(k), _strict(x)) for k, x in v.items()))
+  if isinstance(v, bytes): return ("y", v)
+  return v
+
+
 def data_snapshot(e, keep=None):
   """{table: (row_ids, {col: [encoded values]})} for data columns of all tables (metadata too)."""
   out = {}
@@ -97,7 +111,7 @@ def compare(exp, post, table_id, col_id):
           except Exception: same = False
           if not same:
             out.append(("C39.filters_renamed", {"filter_row": r, "expected": a["__json__"], "got": b}))
-        elif eng._norm(a) != eng._norm(b):
+        elif _strict(a) != _strict(b):
           if t == table_id and c == col_id: clause = "C39.cells_renamed"
           elif t == "_grist_Filters" and c == "filter": clause = "C39.filters_renamed"
           else: clause = "C39.nothing_else"
